@@ -7,6 +7,7 @@ import (
 	"hash/fnv"
 	"math/rand"
 	"os"
+	"sort"
 	"strings"
 	"sync/atomic"
 
@@ -80,6 +81,36 @@ func docDigest(root store.Cursor) string {
 	return fmt.Sprintf("%016x", h.Sum64())
 }
 
+// bindingsDigest: keys of the three binding maps, the variables' values (node-sets element by element) and
+// the identity of each function
+func bindingsDigest(cs *xsel.ContextSettings) string {
+	var parts []string
+	for k, v := range cs.NamespaceDecls {
+		parts = append(parts, "n|"+k+"|"+v)
+	}
+	for k, v := range cs.Variables {
+		d := fmt.Sprintf("v|%s|%s|%T|", k.Space, k.Local, v)
+		if ns, ok := v.(xsel.NodeSet); ok {
+			for _, c := range ns {
+				d += fmt.Sprintf("%p,", c)
+			}
+		} else {
+			d += fmt.Sprint(v)
+		}
+		parts = append(parts, d)
+	}
+	for k, f := range cs.FunctionLibrary {
+		parts = append(parts, fmt.Sprintf("f|%s|%s|%p", k.Space, k.Local, f))
+	}
+	sort.Strings(parts)
+	h := fnv.New64a()
+	for _, p := range parts {
+		h.Write([]byte(p))
+		h.Write([]byte{0})
+	}
+	return fmt.Sprintf("%d:%016x", len(parts), h.Sum64())
+}
+
 func (s *Session) heldSnapshot() [][]int {
 	out := make([][]int, len(s.held))
 	for i, ns := range s.held {
@@ -114,6 +145,16 @@ func (s *Session) exec(ctx int, e *Expr, text string, v, w int, extra *Env) outc
 	bind("v", v)
 	bind("w", w)
 	tenv["vars"] = vars
+	// the bindings are handed over as maps the CALLER owns (a ContextApply may install its own maps, as the
+	// command-line tool does): the three maps must be the same afterwards
+	owned := xsel.ContextSettings{NamespaceDecls: map[string]string{}, FunctionLibrary: map[xsel.XmlName]xsel.Function{}, Variables: map[xsel.XmlName]xsel.Result{}}
+	for _, f := range st {
+		f(&owned)
+	}
+	st = []xsel.ContextApply{func(cs *xsel.ContextSettings) {
+		cs.NamespaceDecls, cs.FunctionLibrary, cs.Variables = owned.NamespaceDecls, owned.FunctionLibrary, owned.Variables
+	}}
+	envPre := bindingsDigest(&owned)
 	c := compile(text)
 	var o outcome
 	if c.err != nil {
@@ -121,11 +162,12 @@ func (s *Session) exec(ctx int, e *Expr, text string, v, w int, extra *Env) outc
 	} else {
 		o = execSafe(s.b.ByID[ctx], &c.g, st)
 	}
+	envPost := bindingsDigest(&owned)
 	if ns, ok := o.res.(xsel.NodeSet); ok && o.err == nil && o.panic == nil {
 		s.held = append(s.held, ns)
 	}
 	s.enc.Encode(map[string]any{"ev": "exec", "h": s.h, "ctx": ctx, "env": tenv, "e": e, "text": text, "res": obsJSON(s.b, o), "vh": v, "wh": w,
-		"held": s.heldSnapshot(), "dochash": docDigest(s.b.Root)})
+		"held": s.heldSnapshot(), "dochash": docDigest(s.b.Root), "envpre": envPre, "envpost": envPost})
 	return o
 }
 
